@@ -261,6 +261,32 @@ def main() -> int:
             bad += 1
             if bad < 40:
                 print('INT MISMATCH', raw, a, b)
+    # saslprep: the loader's facade claims "ASCII maps to itself, exactly the ASCII control characters are prohibited"
+    try:
+        from pysasl.prep import saslprep
+    except ImportError:
+        saslprep = None
+    if saslprep is not None:
+        for t in itertools.chain.from_iterable(itertools.product(range(128), repeat=kk) for kk in (0, 1, 2)):
+            s_ = ''.join(map(chr, t))
+            try:
+                real = saslprep(s_)
+            except ValueError:
+                real = 'ERR'
+            model = 'ERR' if any(c <= 0x1f or c == 0x7f for c in t) else s_
+            nchecks += 1
+            if real != model:
+                bad += 1
+                if bad < 40:
+                    print('SASLPREP MISMATCH', repr(s_), repr(real), repr(model))
+        # base64 decoding with trailing line ending (discarded characters)
+        for t in itertools.product(range(256), repeat=2):
+            raw = bytes(t)
+            enc = base64.b64encode(raw) + b'\r\n'
+            nchecks += 1
+            if bytes(b64decode_items(list(enc))) != base64.b64decode(enc):
+                bad += 1
+                print('B64DEC+CRLF MISMATCH', enc)
     print('difftest: %d patterns (%d skipped as unsupported), %d comparisons, %d mismatches'
           % (len(pats), len(skipped), nchecks, bad))
     for pat, why in skipped:
